@@ -16,12 +16,16 @@
         R  model-free round trip: the real silk_Decode (normal decoding) runs on the finished bytes; wrappers around
            silk_decode_indices / silk_decode_pulses record every frame it reads; `ok` iff that sequence (channel, frame,
            LBRR flag, every index, every pulse) is the sequence the encoder-side wrappers recorded
-   Second op (mode `oframe`): the REAL opus_encode, forced to SILK-only mode (VBR, no mode switches, hence no redundancy),
+   Second op (mode `oframe`): the REAL opus_encode, forced to SILK-only mode (VBR),
    with the same recording wrappers; the Lean model OpusModel.OpusFrameEnc.silkOnlyFrame — SILK payload, ret = (ec_tell+7)>>3,
    ec_enc_done, trailing-zero strip — must reproduce the packet's payload bytes and OPUS_GET_FINAL_RANGE:
      rangecoder oframe <max_data_bytes> <fill> <bandwidth> <nCh> <ms10> <flags> <records>
         the caller's output buffer is pre-filled: byte j behind the TOC byte = (fill + 37*j) % 256
      answer: P <hex payload (packet without TOC)> F <final range>
+   When the encoder appended a 5 ms CELT redundancy frame (SILK bandwidth switch: silk_bw_switch, celt_to_silk = 1) — seen by a
+   wrapper around celt_encode_with_ec, which records where the frame was written and the CELT encoder's final range —
+   the line is `oframer` with three more fields <celt_to_silk> <hex R> <redundant_rng>; the model is silkRedFrame (main part
+   cut at (ec_tell+7)>>3 and not stripped, R behind it, rangeFinal = enc.rng ^ redundant_rng).
    Modes: rand <seed> <n streams> | oframe <seed> <n streams> */
 #ifdef HAVE_CONFIG_H
 #include "config.h"
@@ -40,6 +44,7 @@
 #include "silk/float/main_FLP.h"
 #endif
 #include "celt/entenc.h"
+#include "celt/celt.h"
 
 #define MAXREC (1 << 18)
 static char rec[MAXREC]; static size_t recn; static int rec_on, rec_overflow;
@@ -147,6 +152,23 @@ void __wrap_ec_enc_patch_initial_bits(ec_enc *enc, unsigned val, unsigned nbits)
    __real_ec_enc_patch_initial_bits(enc, val, nbits);
 }
 
+/* redundancy frames: calls of celt_encode_with_ec from a SILK-only opus_encode */
+static int n_celt, n_celt_red; static unsigned char *red_ptr, *out_lo, *out_hi; static int red_len; static opus_uint32 red_rng;
+int __real_celt_encode_with_ec(CELTEncoder *, const opus_res *, int, unsigned char *, int, ec_enc *);
+int __wrap_celt_encode_with_ec(CELTEncoder *st, const opus_res *pcm, int frame_size, unsigned char *compressed, int nbCompressedBytes, ec_enc *enc)
+{
+   int r = __real_celt_encode_with_ec(st, pcm, frame_size, compressed, nbCompressedBytes, enc);
+   if (rec_on) {
+      n_celt++;
+      if (enc != NULL) n_celt_red = 99;                     /* a CELT part on the main coder: not a SILK-only frame */
+      else if (compressed >= out_lo && compressed < out_hi) {   /* not the 2.5 ms prefill into a local dummy buffer */
+         n_celt_red++; red_ptr = compressed; red_len = nbCompressedBytes; red_rng = 0;
+         opus_custom_encoder_ctl(st, OPUS_GET_FINAL_RANGE(&red_rng));
+      }
+   }
+   return r;
+}
+
 static void st_print(ec_ctx *c)
 {
    printf("%u,%u,%u,%u,%u,%d,%d,%d,%u,%d,%d,%u", c->rng, c->val, c->offs, c->end_offs, (unsigned)c->end_window,
@@ -251,7 +273,7 @@ static void run_stream(vrng *r)
    free(psEnc); free(buf); free(decSt);
 }
 
-static long o_packets, o_skipped, o_stereo, o_stripped;
+static long o_packets, o_skipped, o_stereo, o_stripped, o_red;
 static void run_ostream(vrng *r)
 {
    static const int BW[] = {OPUS_BANDWIDTH_NARROWBAND, OPUS_BANDWIDTH_MEDIUMBAND, OPUS_BANDWIDTH_WIDEBAND}, MS[] = {10, 20, 20, 40, 60};
@@ -270,11 +292,13 @@ static void run_ostream(vrng *r)
    for (p = 0; p < npk; p++) {
       static unsigned char out[1500]; int maxb = vchance(r, 30) ? vrange(r, 150, 400) : 1276, len, bad = 0, config, nfpp, nb, k, toc;
       unsigned fill = vbelow(r, 256); opus_uint32 rng = 0; static const int MS10[] = {100, 200, 400, 600};
+      if (p > 0 && vchance(r, 20)) opus_encoder_ctl(enc, OPUS_SET_BANDWIDTH(BW[vbelow(r, 3)]));   /* bandwidth switches bring redundancy frames */
       fill_audio(r, &sg, &left, pcmf, nsamp, nch, fs);
       for (i = 0; i < nsamp * nch; i++) { float v = pcmf[i] * 32767.0f; pcm16[i] = (opus_int16)(v > 32767 ? 32767 : v < -32768 ? -32768 : v); }
       out[0] = 0; for (i = 1; i < (int)sizeof out; i++) out[i] = (unsigned char)((fill + 37u * (unsigned)(i - 1)) % 256u);
       recn = 0; rec[0] = 0; rec_on = 1; rec_overflow = 0; have_pred = have_mid = 0; last_valid = 0; n_patch = 0; flags_word = 0; flags_bits = 0;
       memset(calls_this_frame, 0, sizeof calls_this_frame); nefr = 0;
+      n_celt = n_celt_red = 0; red_ptr = NULL; red_len = 0; red_rng = 0; out_lo = out; out_hi = out + sizeof out;
       len = opus_encode(enc, pcm16, nsamp, out, maxb);
       rec_on = 0;
       if (len < 0) { printf("# opus_encode returned %d\n", len); break; }
@@ -286,8 +310,10 @@ static void run_ostream(vrng *r)
       if (flags_bits != k) { o_skipped++; continue; }
       if (recn && rec[recn - 1] == ';') rec[--recn] = 0;
       (void)nb;
-      printf("I rangecoder oframe %d %u %d %d %d %u %s\n", maxb, fill, 1101 + (config >> 2), ((toc >> 2) & 1) + 1, MS10[config & 3], flags_word, recn ? rec : "-");
-      printf("O P "); vhex(stdout, out + 1, len - 1); printf(" F %u\n", (unsigned)rng);
+      if (n_celt_red > 1 || (n_celt_red == 1 && (red_len < 2 || red_ptr + red_len != out + len))) { o_skipped++; continue; }
+      printf("I rangecoder %s %d %u %d %d %d %u %s", n_celt_red ? "oframer" : "oframe", maxb, fill, 1101 + (config >> 2), ((toc >> 2) & 1) + 1, MS10[config & 3], flags_word, recn ? rec : "-");
+      if (n_celt_red) { printf(" %d ", n_celt == 1); vhex(stdout, red_ptr, red_len); printf(" %u", (unsigned)red_rng); o_red++; }
+      printf("\nO P "); vhex(stdout, out + 1, len - 1); printf(" F %u\n", (unsigned)rng);
       o_packets++; if ((toc >> 2) & 1) o_stereo++;
       fflush(stdout);
    }
@@ -298,14 +324,14 @@ int main(int argc, char **argv)
 {
    vinstall_traps();
    if (argc >= 4 && !strcmp(argv[1], "rand")) {
-      vrng m; long i, n = atol(argv[3]); m.s = strtoull(argv[2], 0, 10) * 0x9E3779B97F4A7C15ULL + 0xC085A11CULL;
+      vrng m; long i, n = atol(argv[3]); m.s = strtoull(argv[2], 0, 10) * 0x9E3779B97F4A7C15ULL + 0xC085A11CULL; m.s = vnext(&m);
       for (i = 0; i < n; i++) { vrng r; r.s = vnext(&m); run_stream(&r); }
       printf("# spacket streams=%ld packets=%ld stereo=%ld regular-frames=%ld lbrr-frames=%ld mid-only-flags-set=%ld err=%ld round-trip-diffs=%ld skipped: re-coded %ld config %ld\n",
          n, n_packets, n_stereo, n_frames, n_lbrr_frames, n_midonly, n_err, n_rt_diff, n_multi_iter, n_mismatch_cfg);
    } else if (argc >= 4 && !strcmp(argv[1], "oframe")) {
-      vrng m; long i, n = atol(argv[3]); m.s = strtoull(argv[2], 0, 10) * 0x9E3779B97F4A7C15ULL + 0xC08F4A3EULL;
+      vrng m; long i, n = atol(argv[3]); m.s = strtoull(argv[2], 0, 10) * 0x9E3779B97F4A7C15ULL + 0xC08F4A3EULL; m.s = vnext(&m);
       for (i = 0; i < n; i++) { vrng r; r.s = vnext(&m); run_ostream(&r); }
-      printf("# oframe streams=%ld packets=%ld stereo=%ld skipped=%ld\n", n, o_packets, o_stereo, o_skipped);
+      printf("# oframe streams=%ld packets=%ld stereo=%ld with-redundancy=%ld skipped=%ld\n", n, o_packets, o_stereo, o_red, o_skipped);
    } else { fprintf(stderr, "usage: c08_silkpacket rand|oframe <seed> <n>\n"); return 64; }
    return 0;
 }
